@@ -62,7 +62,7 @@ struct xmlpr_ctx {
 static const char *
 xml_print_ns(struct xmlpr_ctx *pctx, const char *ns, const char *new_prefix, uint32_t prefix_opts)
 {
-    uint32_t i;
+    uint32_t i, j;
 
     for (i = pctx->ns.count; i > 0; --i) {
         if (!new_prefix) {
@@ -84,8 +84,15 @@ xml_print_ns(struct xmlpr_ctx *pctx, const char *ns, const char *new_prefix, uin
                 }
 
                 if (!strcmp(pctx->prefix.objs[i - 1], new_prefix) || !(prefix_opts & LYXML_PREFIX_REQUIRED)) {
-                    /* the same prefix or can be any */
-                    return pctx->prefix.objs[i - 1];
+                    /* the same prefix or can be any, but it must not be bound to another namespace by an inner element */
+                    for (j = i; j < pctx->ns.count; ++j) {
+                        if (pctx->prefix.objs[j] && !strcmp(pctx->prefix.objs[j], pctx->prefix.objs[i - 1])) {
+                            break;
+                        }
+                    }
+                    if (j == pctx->ns.count) {
+                        return pctx->prefix.objs[i - 1];
+                    }
                 }
             }
         }
